@@ -695,7 +695,19 @@ def container_cases(ctx, rng, count):
             else:
                 oes = [(0, 1), (1, 0), (1, 2), (2, 1)]
                 other = graphs.csr_from_edges(3, oes, [1.0] * 4)
-            ctx.count('refit')
+            hist = rng.choice(['other-kind', 'same-kind-larger', 'same-kind-smaller'])
+            if hist != 'other-kind':
+                # the estimator has been fitted on an input of the SAME kind but of another size before
+                big = hist == 'same-kind-larger'
+                if a.shape[0] == a.shape[1] and not fb:
+                    k = a.shape[0] + 2 if big else 2
+                    oes = [(i, (i + 1) % k) for i in range(k)] + [((i + 1) % k, i) for i in range(k)]
+                    other = graphs.csr_from_edges(k, oes, [1.0] * len(oes))
+                else:
+                    kr, kc = (a.shape[0] + 1, a.shape[1] + 2) if big else (1, 2)
+                    oes = [(i, j) for i in range(kr) for j in range(kc) if (i + j) % 3 != 2 or j == 0]
+                    other = graphs.csr_from_edges(kr, oes, [1.0] * len(oes), m=kc)
+            ctx.count('refit:' + hist)
             out += cases_paris(a, w, r, fb, refit=_gdesc(other), ctx=ctx)
             out += cases_louvain('LouvainHierarchy', a, {}, fb, refit=_gdesc(other))
             out += cases_louvain('LouvainIteration', a, {}, fb, refit=_gdesc(other))
